@@ -396,4 +396,171 @@ theorem buildRanking_first {locked : List Pair} {r : List Cand} (h : buildRankin
           simp at h2
       · simp at hb
 
+/-! ### ranked pairs is Smith-efficient (all three win scorers) -/
+
+theorem exists_max_key {α : Type} (f : α → Rat) : ∀ (l : List α), l ≠ [] → ∃ a ∈ l, ∀ b ∈ l, f b ≤ f a := by
+  intro l
+  induction l with
+  | nil => intro h; exact absurd rfl h
+  | cons x xs ih =>
+    intro _
+    by_cases hxs : xs = []
+    · subst hxs; exact ⟨x, by simp, by simp⟩
+    · obtain ⟨a, ha, hmax⟩ := ih hxs
+      by_cases hle : f a ≤ f x
+      · refine ⟨x, by simp, ?_⟩
+        intro b hb
+        rcases List.mem_cons.1 hb with rfl | hb'
+        · exact le_refl _
+        · exact le_trans (hmax b hb') hle
+      · refine ⟨a, List.mem_cons_of_mem _ ha, ?_⟩
+        intro b hb
+        rcases List.mem_cons.1 hb with rfl | hb'
+        · exact le_of_lt (not_le.1 hle)
+        · exact hmax b hb'
+
+/-- the sort key of a won pair is strictly above that of the reverse pair (all three scorers) -/
+theorem key_lt_of_beats {v : Pairwise} (hwf : WF v) (sc : Scorer) {a b : Cand} (hb : Beats v a b)
+    (hba : (b, a) ∈ v.map (·.1)) :
+    (a, b) ∈ v.map (·.1) ∧ pget (scorePairs sc v) (b, a) < pget (scorePairs sc v) (a, b) := by
+  have hpos : 0 < pget v (a, b) := lt_of_le_of_lt (pget_nonneg hwf _) hb
+  have hab : (a, b) ∈ v.map (·.1) := List.mem_map.2 ⟨_, pget_pos_mem hpos, rfl⟩
+  refine ⟨hab, ?_⟩
+  rw [pget_scorePairs hwf.1 sc hba, pget_scorePairs hwf.1 sc hab]
+  unfold Beats at hb
+  have hnn := pget_nonneg hwf (b, a)
+  cases sc with
+  | winningVotes =>
+    simp only [scoreOf]
+    rw [if_neg (not_lt.2 (le_of_lt hb)), if_pos hb]
+    linarith
+  | margins => simp only [scoreOf]; linarith
+  | pairwiseOpposition => simp only [scoreOf]; exact hb
+
+/-- **no pair from outside a dominating set into it is ever locked** -/
+theorem no_crossing_locked {v : Pairwise} (hwf : WF v) (sc : Scorer) {S : Cand → Prop} [DecidablePred S]
+    (hS : Graph.Dominating (candidates v) (Beats v) S) :
+    let s2 := sortDescBy (pget (scorePairs sc v)) (sortDescBy (pget v) (v.map (·.1)))
+    ∀ e ∈ lockPairs s2, ¬ (¬ S e.1 ∧ S e.2) := by
+  intro s2
+  have hperm : s2.Perm (v.map (·.1)) := (sortDescBy_perm _ _).trans (sortDescBy_perm _ _)
+  have hsorted : s2.Pairwise (fun a b => pget (scorePairs sc v) b ≤ pget (scorePairs sc v) a) :=
+    sortDescBy_sorted (pget (scorePairs sc v)) (sortDescBy (pget v) (v.map (·.1)))
+  have hkey : ∀ p, p ∈ s2 ↔ p ∈ v.map (·.1) := fun p => hperm.mem_iff
+  have hself : ∀ p ∈ s2, p.1 ≠ p.2 := by
+    intro p hp
+    obtain ⟨e, he, rfl⟩ := List.mem_map.1 ((hkey p).1 hp)
+    exact hwf.2.1 e he
+  have hlocked_in : ∀ e ∈ lockPairs s2, e ∈ s2 := by
+    intro e he
+    rw [lockPairs_eq] at he
+    rcases lockFold_sub _ _ he with h' | h'
+    · simp at h'
+    · exact h'
+  by_contra hex
+  simp only [not_forall, not_not] at hex
+  -- the locked crossing pairs; take one with maximal key
+  have hne : (lockPairs s2).filter (fun e => decide (¬ S e.1 ∧ S e.2)) ≠ [] := by
+    obtain ⟨e, he, hcross⟩ := hex
+    intro hnil
+    have : e ∈ (lockPairs s2).filter (fun e => decide (¬ S e.1 ∧ S e.2)) :=
+      List.mem_filter.2 ⟨he, by simpa using hcross⟩
+    rw [hnil] at this
+    simp at this
+  obtain ⟨e, he, hmax⟩ := exists_max_key (pget (scorePairs sc v)) _ hne
+  obtain ⟨hel, hecross⟩ := List.mem_filter.1 he
+  simp only [decide_eq_true_eq] at hecross
+  obtain ⟨o, s'⟩ := e
+  simp only at hecross
+  have hos_key : (o, s') ∈ v.map (·.1) := (hkey _).1 (hlocked_in _ hel)
+  have hoc : o ∈ candidates v := by
+    obtain ⟨e', he', hee⟩ := List.mem_map.1 hos_key
+    have := fst_mem_candidates he'
+    rw [hee] at this
+    exact this
+  have hbeat : Beats v s' o := hS.2 s' o hecross.2 hoc hecross.1
+  obtain ⟨hso_key, hklt⟩ := key_lt_of_beats hwf sc hbeat hos_key
+  -- (s', o) is not locked: together with (o, s') it would be a cycle
+  have hnotlocked : (s', o) ∉ lockPairs s2 := by
+    intro hl
+    have hac := lockPairs_acyclic' hself
+    apply hac s'
+    exact TransGen.tail (TransGen.single hl) hel
+  obtain ⟨pre, post, hsplit⟩ := List.append_of_mem ((hkey _).2 hso_key)
+  rw [hsplit] at hnotlocked
+  obtain ⟨hpath, hsub⟩ := lockPairs_refused hnotlocked
+  obtain ⟨o2, t2, hedge, ho2, ht2⟩ := transGen_crossing (S := S) hpath hecross.1 hecross.2
+  have hpre : (o2, t2) ∈ pre := hsub _ hedge
+  have hfinal : (o2, t2) ∈ lockPairs s2 := by
+    rw [hsplit, lockPairs_eq, List.foldl_append]
+    apply lockFold_mono
+    rw [← lockPairs_eq]
+    exact hedge
+  have hge : pget (scorePairs sc v) (s', o) ≤ pget (scorePairs sc v) (o2, t2) := by
+    rw [hsplit] at hsorted
+    exact (List.pairwise_append.1 hsorted).2.2 (o2, t2) hpre (s', o) (by simp)
+  have hle := hmax (o2, t2) (List.mem_filter.2 ⟨hfinal, by simpa using ⟨ho2, ht2⟩⟩)
+  linarith
+
+theorem rankedPairs_first_in_smith {v : Pairwise} (hwf : WF v) (sc : Scorer)
+    {n : Nat} (hn : 1 ≤ n) {r : List Slot} (h : rankedPairs sc v n = .ok r) :
+    ∃ c, r.head? = some (Slot.cand c) ∧ c ∈ smithSet v := by
+  have hdom : Graph.Dominating (candidates v) (Beats v) (fun x => x ∈ smithSet v) := by
+    have : (fun x => x ∈ smithSet v) = Graph.SmithReach (candidates v) (Beats v) :=
+      funext fun x => propext (mem_smithSet hwf x)
+    rw [this]; exact Graph.smithReach_dominating
+  have hnocross := no_crossing_locked hwf sc hdom
+  unfold rankedPairs at h
+  simp only [bind, Except.bind] at h
+  set s2 := sortDescBy (pget (scorePairs sc v)) (sortDescBy (pget v) (v.map (·.1))) with hs2
+  have hperm : s2.Perm (v.map (·.1)) := (sortDescBy_perm _ _).trans (sortDescBy_perm _ _)
+  have hkey : ∀ p, p ∈ s2 ↔ p ∈ v.map (·.1) := fun p => hperm.mem_iff
+  cases hb : buildRanking (lockPairs s2) with
+  | error e => rw [hb] at h; simp at h
+  | ok ranking =>
+    rw [hb] at h
+    simp only [Except.ok.injEq] at h
+    obtain ⟨c, hhead, hnoin, hcfirst⟩ := buildRanking_first hb
+    have hr : r.head? = some (Slot.cand c) := by
+      cases ranking with
+      | nil => simp at hhead
+      | cons a rest =>
+        simp only [List.head?_cons, Option.some.injEq] at hhead
+        subst hhead
+        obtain ⟨k, rfl⟩ : ∃ k, n = k + 1 := ⟨n - 1, by omega⟩
+        rw [← h]; rfl
+    refine ⟨c, hr, ?_⟩
+    obtain ⟨ec, hec, hec1⟩ := List.mem_map.1 hcfirst
+    have hlocked_sub : ∀ e ∈ lockPairs s2, e ∈ v.map (·.1) := by
+      intro e he
+      rw [lockPairs_eq] at he
+      rcases lockFold_sub _ _ he with h' | h'
+      · simp at h'
+      · exact (hkey e).1 h'
+    have hcc : c ∈ candidates v := by
+      obtain ⟨e, he, hee⟩ := List.mem_map.1 (hlocked_sub ec hec)
+      have := fst_mem_candidates he
+      rw [hee, hec1] at this
+      exact this
+    by_contra hnot
+    obtain ⟨s, hs⟩ := Graph.smithReach_nonempty (cands := candidates v) (B := Beats v)
+      (fun _ _ h => Beats.asymm h) (List.ne_nil_of_mem hcc)
+    have hs' : s ∈ smithSet v := (mem_smithSet hwf s).2 hs
+    have hbeat : Beats v s c := hdom.2 s c hs' hcc hnot
+    have hpos : 0 < pget v (s, c) := lt_of_le_of_lt (pget_nonneg hwf _) hbeat
+    have hsc_key : (s, c) ∈ v.map (·.1) := List.mem_map.2 ⟨_, pget_pos_mem hpos, rfl⟩
+    obtain ⟨pre, post, hsplit⟩ := List.append_of_mem ((hkey _).2 hsc_key)
+    have hnotlocked : (s, c) ∉ lockPairs (pre ++ (s, c) :: post) := by
+      rw [← hsplit]
+      intro hl
+      exact hnoin _ hl rfl
+    obtain ⟨hpath, _⟩ := lockPairs_refused hnotlocked
+    obtain ⟨o, s', hedge, ho, hs1⟩ := transGen_crossing (S := fun x => x ∈ smithSet v) hpath hnot hs'
+    have hfinal : (o, s') ∈ lockPairs s2 := by
+      rw [hsplit, lockPairs_eq, List.foldl_append]
+      apply lockFold_mono
+      rw [← lockPairs_eq]
+      exact hedge
+    exact hnocross _ hfinal ⟨ho, hs1⟩
+
 end VL.Condorcet
